@@ -26,7 +26,9 @@ import tempfile
 from ..common import Ctx, cbool
 
 LEVEL = "proof"
-TOL = 5e-6          # normwise relative tolerance for resumed-vs-uninterrupted float32 results
+TOL = 5e-6          # relative max-norm tolerance for resumed-vs-uninterrupted loss / lr histories
+ARR_L2 = 2e-5       # object / probe arrays: relative Frobenius norm ...
+ARR_MAX = 2e-4      # ... and relative max-norm (single barely-illuminated pixels: Adam amplifies float32 noise)
 TOL_REPORT = 1e-7   # reported state of the reloaded object vs the saved one (bit-exact in practice)
 
 PRE = """From QV.lib Require Import Prelude.
@@ -93,7 +95,7 @@ def corpus_cases():
 def gen_cases(ctx: Ctx):
     r = ctx.rng
     cases = corpus_cases()
-    n_gen = ctx.budget(44, 520)
+    n_gen = ctx.budget(64, 640)
 
     def cyc(vals):
         vals = list(vals)
@@ -209,12 +211,12 @@ def oracle(case, res):
         bad.append(("%s-reported-%s" % (kind, classify(m)),
                     "the %s object does not report the state that was %s: %s" % (
                         "cloned" if kind == "clone" else "reloaded", "cloned" if kind == "clone" else "saved", m)))
-    m = T.compare_numeric(res["resumed"], res["ref"], TOL)
+    m = T.compare_numeric(res["resumed"], res["ref"], TOL, ARR_L2, ARR_MAX)
     if m:
         bad.append(("%s-resume-%s" % (via.replace("+", "-"), classify(m)),
                     "run %d; %s; run %d differs from the uninterrupted run: %s" % (
                         case["k"], via, case["n"] - case["k"], m)))
-    m = T.compare_numeric(res["live"], res["ref"], TOL)
+    m = T.compare_numeric(res["live"], res["ref"], TOL, ARR_L2, ARR_MAX)
     if m:
         bad.append(("live-after-%s-%s" % ("clone" if via == "clone" else "save", classify(m)),
                     "the original object, continued after %s, differs from the uninterrupted run: %s" % (
@@ -315,7 +317,8 @@ def run(ctx: Ctx):
         "at least one optimiser keeps per-parameter state or a scheduler is attached.")
     ctx.assumptions += [
         "PARTIAL CLAIM: state machine proved; numerical resume equivalence validated by differential runs "
-        "(tolerance %.0e relative, normwise, float32), not proved" % TOL,
+        "(loss / lr histories %.0e relative; object / probe %.0e relative Frobenius and %.0e max-norm; float32), "
+        "not proved" % (TOL, ARR_L2, ARR_MAX),
         "torch.save/torch.load of a module preserve tensor values, optimizer.state and the sharing inside one "
         "pickle; copy.deepcopy preserves sharing inside one object graph (oracle contracts, exercised by every case)",
         "torch CPU kernels are deterministic functions of their inputs (single thread enforced by the harness)",
@@ -386,7 +389,7 @@ def run(ctx: Ctx):
     ctx.log("oracle: %d cases, %d hold; max rel deviation from the uninterrupted run: %s" % (
         len(cases), n_ok, {k: "%.2e" % v for k, v in max_dev.items()}))
     ctx.cov["max_rel_deviation_observed"] = max_dev
-    ctx.cov["tolerance"] = {"resume": TOL, "reported": TOL_REPORT}
+    ctx.cov["tolerance"] = {"resume_histories_maxnorm": TOL, "resume_arrays_frobenius": ARR_L2, "resume_arrays_maxnorm": ARR_MAX, "reported": TOL_REPORT}
 
     vals = ctx.coq_eval("struct", PRE, exprs, shard=24) if exprs else []
     vi = 0
